@@ -212,8 +212,11 @@ def simulate(L, K, lines, thrown=()):
                     nx.aid, ny.aid = x.aid, y.aid
                 slots[a[0]], slots[a[1]] = nx, ny
             touched = [a[0], a[1]]
-        elif op in ("junk",) or op.startswith("thrown:"):
-            pass
+        elif op in ("junk", "pagemode", "protect", "unprotect", "constops", "threads") or op.startswith("thrown:"):
+            if op in ("constops", "threads") and (slots.get(a[0]) is None or slots.get(a[1]) is None):
+                raise Invalid("const operations on a missing vector")
+            if op == "constops":
+                touched = [a[0]]
         elif op in ("refassign", "refswap"):
             d, sv = slots.get(a[0]), slots.get(a[2])
             if d is None or sv is None or not (0 <= a[1] < len(d.elems)) or not (0 <= a[3] < len(sv.elems)):
@@ -447,6 +450,8 @@ MARKER_PROPS = {
     "PATHERR const-iterator": {"C11"},
     "PATHERR iterator-conversion": {"C11"},
     "UNSUPPORTED": {"C11", "C12"},
+    "PATHERR copy-of-shared-vector-differs": {"C19", "C09"},
+    "PATHERR element-of-shared-vector-differs": {"C19", "C12"},
     "PATHERR element-access-paths": {"C12", "C11"},
     "PATHERR element-structured-bindings": {"C12", "C11"},
     "PATHERR element-outside-own-block": {"C12", "C02"},
@@ -709,6 +714,18 @@ def oracle_C17(L, K, lines, steps, spec):
                 v.append("step %d %s threw: vector %d was not observable afterwards" % (i, sp["op"], s))
     v += oracle_C07(L, K, lines, steps, spec)
     v += oracle_C06(L, K, lines, steps, spec)
+    return v[:5]
+
+
+def oracle_C19(L, K, lines, steps, spec):
+    """const operations on a write-protected vector: a store into shared state is a SIGSEGV
+    (reported by check() as abnormal end); the values read are the spec's; threads agree"""
+    v = content_mismatches(L, steps, spec)
+    for i, l in enumerate(lines):
+        if l.startswith("threads") and i < len(steps):
+            ok = [m for m in steps[i]["markers"] if m.startswith("THREADS")]
+            if not ok or ok[0].split()[2] != "1":
+                v.append("step %d: threads running the const catalogue disagree or did not finish: %r" % (i, ok))
     return v[:5]
 
 
